@@ -114,6 +114,12 @@ func runC02(tp *sim.Tape, opt sim.RunOpt) *sim.Outcome {
 	case "expr":
 		src = generateExprProgram(tp)
 		name, mech = "generated-expr", lastGenMech
+	case "coro":
+		src = generateCoroProgram(tp)
+		name, mech = "generated-coro", lastGenMech
+	case "slice":
+		src = generateSliceProgram(tp)
+		name, mech = "generated-slice", lastGenMech
 	default:
 		src = generate(tp)
 		name, mech = "generated", lastGenMech
@@ -142,7 +148,16 @@ func runC02(tp *sim.Tape, opt sim.RunOpt) *sim.Outcome {
 	o.ProbeN("statements_observed", int64(nstm))
 	o.ProbeN("facts_recorded", int64(nfacts))
 	st := &factStats{skipWhy: map[string]int{}}
-	res := execute(p, tp, 1+tp.Draw(8), p.factObserver(st))
+	var res execResult
+	if opt.Mode == "coro" {
+		res = driveHistory(p, tp, p.factObserver(st))
+		o.ProbeN("suspensions", int64(res.suspensions))
+		if res.suspensions > 0 {
+			o.Probe("runs_with_a_suspension")
+		}
+	} else {
+		res = execute(p, tp, 1+tp.Draw(8), p.factObserver(st))
+	}
 	for _, c := range res.calls {
 		fp.AddStr(c)
 	}
